@@ -105,6 +105,14 @@ uint64_t exec_plan(const Plan &plan, Ctx &ctx)
 	// allocator address reuse is a per-run knob of the plan (see SimAlloc::reuse)
 	g_alloc.reuse = plan.C("reuse") != 0;
 	pf->exec(ctx);
+	if (g_alloc.foreign_frees) {
+		// memory that did not come from the allocator installed with jwt_set_alloc() was handed to its free
+		// function (with a pool or arena allocator that is memory corruption; with malloc underneath it is silent)
+		bool memsafe = plan.property == "C06" || plan.property == "C07" || plan.property == "C16" || plan.property == "C17";
+		ctx.violation(memsafe ? plan.property : std::string("C07"), "foreign-free", plan.profile,
+			      strf("%llu pointer(s) that the installed allocator never handed out (or had already got back) were passed to its free function",
+				   (unsigned long long)g_alloc.foreign_frees));
+	}
 	if (ctx.stats) {
 		ctx.stats->sim_seconds += g_clock.covered;
 		if (ctx.nontrivial)
@@ -1225,6 +1233,31 @@ static int cmd_run1(const std::string &property, Tier tier, uint64_t verif_seed,
 	return ctx.viol.empty() ? 0 : 1;
 }
 
+// debugging aid: execute runs first, first+stride, ... up to `last` in this one process (the history a
+// worker with that stride would have) and print the event log of the last one
+static int cmd_history(const std::string &property, Tier tier, uint64_t verif_seed, uint64_t first, uint64_t stride, uint64_t last)
+{
+	const CheckDef *cd = find_check(property);
+	if (!cd || !stride)
+		return 2;
+	rsa_pool_ensure(false);
+	for (uint64_t i = first; i <= last; i += stride) {
+		Plan plan;
+		make_plan(*cd, verif_seed, i, tier, plan);
+		Ctx ctx;
+		Stats st;
+		ctx.stats = &st;
+		ctx.verbose = i + stride > last;
+		uint64_t h = exec_plan(plan, ctx);
+		if (ctx.verbose) {
+			for (auto &l : ctx.lines)
+				printf("| %s\n", l.c_str());
+			printf("run %llu loghash=%016llx\n", (unsigned long long)i, (unsigned long long)h);
+		}
+	}
+	return 0;
+}
+
 static void usage()
 {
 	fprintf(stderr, "usage: jwtsim check --property Cxx [--tier quick|thorough] [--seed N] [--workers N] [--runs N]\n"
@@ -1312,6 +1345,8 @@ int main(int argc, char **argv)
 		return cmd_replay(file, verbose);
 	if (cmd == "run1")
 		return cmd_run1(property, tier, seed, index, dump);
+	if (cmd == "history")
+		return cmd_history(property, tier, seed, index % (uint64_t)workers, (uint64_t)workers, index);
 	if (cmd == "setup") {
 		rsa_pool_ensure(true);
 		return 0;
